@@ -7,7 +7,19 @@ D=/verif/seeded/$SID
 [ -f $D/patch.diff ] || { echo "no $D/patch.diff"; exit 2; }
 WT=$(mktemp -d /tmp/wt_re_XXXXXX); rmdir $WT
 git -C /repo worktree add -q $WT HEAD || exit 2
-if ! git -C $WT apply $D/patch.diff; then echo "$SID PATCH DOES NOT APPLY to HEAD"; git -C /repo worktree remove --force $WT; exit 2; fi
+PATCH=$D/patch.diff
+# a later fix: commit may have changed the context lines: seeded/<id>/patch_rebased.diff is the same change ported onto HEAD
+if ! git -C $WT apply --check $PATCH 2>/dev/null && [ -f $D/patch_rebased.diff ]; then PATCH=$D/patch_rebased.diff; fi
+if ! git -C $WT apply $PATCH; then
+  echo "$SID PATCH DOES NOT APPLY to HEAD"; git -C /repo worktree remove --force $WT
+  python3 - "$SID" <<'PY'
+import json, sys
+p = "/verif/seeded/%s/meta.json" % sys.argv[1]
+m = json.load(open(p)); m["final_verdict"] = "n/a (patch no longer applies to /repo HEAD: the code it edits was changed by a later fix)"
+json.dump(m, open(p, "w"), indent=1)
+PY
+  exit 2
+fi
 OUT=$(cd /verif && VERIF_BUILD_TAG=_re$$ VERIF_REPO=$WT timeout 3000 ./check.py $PID --tier quick 2>&1 | grep -E "VIOLATION|KNOWN-FINDING|why:|no longer shown|INTERNAL| (OK|FAIL) tier" | cut -c1-400 | head -8)
 git -C /repo worktree remove --force $WT
 rm -rf /verif/build/${PID}_re$$
